@@ -155,6 +155,30 @@ class SimRaw(io.RawIOBase):
                 self._env.op("close", self._role)
 
 
+class ProbedReader(io.BufferedReader):
+    """A real BufferedReader that counts how often peek() comes back short.
+
+    'short' = fewer bytes than asked for although at least that many remain
+    in the file - legal for peek(), and the state a careless reader trips on.
+    """
+
+    _sim_env: "SimEnv | None" = None
+    _sim_role = ""
+
+    def peek(self, size: int = 0) -> bytes:  # type: ignore[override]
+        data = super().peek(size)
+        env = self._sim_env
+        if env is not None and size > 0:
+            try:
+                remaining = os.fstat(self.fileno()).st_size - self.tell()
+            except (OSError, ValueError):
+                remaining = len(data)
+            env.count("peek", self._sim_role)
+            if len(data) < size <= remaining:
+                env.count("peek_short_with_data_left", self._sim_role)
+        return data
+
+
 class SimEnv:
     """Context manager: one execution's environment."""
 
@@ -270,7 +294,9 @@ class SimEnv:
             if "+" in modeset:
                 buf: Any = io.BufferedRandom(raw, bs)
             elif "r" in modeset:
-                buf = io.BufferedReader(raw, bs)
+                buf = ProbedReader(raw, bs)
+                buf._sim_env = self
+                buf._sim_role = role
             else:
                 buf = io.BufferedWriter(raw, bs)
         except BaseException:
